@@ -14,13 +14,13 @@ from .report import Ctx, load_known, match_known, write_evidence, write_replay
 PROPS = ["C%02d" % i for i in range(1, 21)]
 
 
-def run_check(prop: str, tier: str, repo: str | None, quiet: bool = False, write: bool = True) -> int:
+def run_check(prop: str, tier: str, repo: str | None, quiet: bool = False, write: bool = True, shared_engine=None) -> int:
     from .engine import Engine
     t0 = time.time()
     seed = int(os.environ.get("VERIF_SEED", "0") or 0)
     ctx = None
     try:
-        eng = Engine(repo)
+        eng = shared_engine if shared_engine is not None else Engine(repo)
         ctx = Ctx(prop, tier, eng)
         mod = importlib.import_module(f"jv.rules.{prop.lower()}")
         mod.run(ctx)
@@ -188,11 +188,18 @@ def main(argv: list[str]) -> int:
         from .selftest import runner
         return runner.main(ns.props, ns.jobs, ns.list)
     if ns.cmd == "all":
+        # one fact base for all properties (used by the sweeps; the registered per-property commands build their own)
         worst = 0
+        shared = None
+        try:
+            from .engine import Engine
+            shared = Engine(ns.repo)
+        except Exception:
+            shared = None
         for p in PROPS:
             if not os.path.exists(os.path.join(os.path.dirname(__file__), "rules", p.lower() + ".py")):
                 continue
-            rc = run_check(p, ns.tier, ns.repo, write=not ns.no_write)
+            rc = run_check(p, ns.tier, ns.repo, write=not ns.no_write, shared_engine=shared)
             worst = max(worst, rc)
         return worst
     return 2
